@@ -38,6 +38,7 @@ import LexprModel.Proofs.Trivia
 import LexprModel.Proofs.ConcatSources
 import LexprModel.Proofs.ConcatTrivia
 import LexprModel.Proofs.ConcatDatum
+import LexprModel.Proofs.FloatApproxConcat
 namespace Lexpr
 namespace Parse
 
